@@ -139,6 +139,12 @@ func c18Inputs(c *Ctx, nMut int) []c18Case {
 	for _, s := range typeSeeds {
 		cases = append(cases, c18Case{"type", s})
 	}
+	for _, s := range poisonInputs {
+		cases = append(cases, c18Case{"split", s}, c18Case{"statements", s}, c18Case{"expr", s})
+	}
+	for _, s := range stateProbes {
+		cases = append(cases, c18Case{"split", s}, c18Case{"statements", s}, c18Case{"expr", s})
+	}
 	r := gen.NewRand(c.Seed, 1800) // NOT shard dependent
 	cs := c.Corpus()
 	for i := 0; i < nMut; i++ {
@@ -221,6 +227,7 @@ func RunC18(c *Ctx) {
 		}
 	}
 	c.Count("sequential_repeats", int64(len(cases)))
+	c18Sequences(c, cases, ref)
 	// (2) aliasing: two separately returned trees share no heap object; scribbling over one changes no later result
 	for k := 0; k < c.Pick(300, 3000); k++ {
 		i := r.IntN(len(cases))
